@@ -803,6 +803,31 @@ impl<'a> VisitMut for Rewriter<'a> {
                 }
                 let mut esc = Esc2(false);
                 syn::visit::Visit::visit_block(&mut esc, &a.block);
+                // a spawned task of the form `async move { loop { .. return; .. } }`: a value-less `return` directly inside that single
+                // loop ends the task, exactly like `break` ends the loop that is the whole block
+                if esc.0 && a.block.stmts.len() == 1 {
+                    let is_loop = matches!(&a.block.stmts[0], syn::Stmt::Expr(syn::Expr::Loop(_), _));
+                    if is_loop {
+                        struct RetToBreak { depth: usize, ok: bool, hit: bool }
+                        impl VisitMut for RetToBreak {
+                            fn visit_expr_mut(&mut self, e: &mut syn::Expr) {
+                                match e {
+                                    syn::Expr::Return(r) => {
+                                        if r.expr.is_some() || self.depth != 1 { self.ok = false; } else { *e = syn::parse_quote!(break); self.hit = true; }
+                                    }
+                                    syn::Expr::Try(_) => { self.ok = false; }
+                                    syn::Expr::Loop(_) | syn::Expr::While(_) | syn::Expr::ForLoop(_) => { self.depth += 1; visit_mut::visit_expr_mut(self, e); self.depth -= 1; }
+                                    syn::Expr::Closure(_) | syn::Expr::Async(_) => {}
+                                    _ => visit_mut::visit_expr_mut(self, e),
+                                }
+                            }
+                        }
+                        let mut rb = RetToBreak { depth: 0, ok: true, hit: false };
+                        let mut blk = a.block.clone();
+                        rb.visit_block_mut(&mut blk);
+                        if rb.ok && rb.hit { a.block = blk; esc.0 = false; self.rules.insert("R7".into()); }
+                    }
+                }
                 if esc.0 {
                     if self.escaping_async_blocks_allowed == 0 { die("R7 refuses: an async block that is not the returned future contains `?`/`return`"); }
                     self.escaping_async_blocks_allowed -= 1;
